@@ -266,7 +266,15 @@ pub(crate) fn apply_rules_on_link(
                         BTreeSet::new()
                     }
                 }
-                ArtifactRule::Disallow(_) => {
+                ArtifactRule::Disallow(pattern) => {
+                    // a pattern that cannot be interpreted must not turn
+                    // the rule into a no-op
+                    if let Err(e) = glob::Pattern::new(pattern.value()) {
+                        return Err(Error::ArtifactRuleError(format!(
+                            "invalid pattern {:?} in DISALLOW rule of {}: {}",
+                            pattern, item_name, e
+                        )));
+                    }
                     if !filtered.is_empty() {
                         return Err(Error::ArtifactRuleError(format!(
                             r#"artifact verification failed for {:?} in DISALLOW, because {:?} is disallowed by rule {:?} in {}"#,
